@@ -87,10 +87,14 @@ void h_qltlv(void) {
     parseFrame(RX, &g_cfgA);
     if (seq == 0) {
         V_ASSERT(g_nsend == 0, "C08: a request with sequence number zero is not answered");
+        V_ASSERT(ST->mapper_known == in.st.known && mac6_eq(ST->mapper_real.a, in.st.mreal), "C05: an ignored QueryLargeTlv leaves the mapper alone");
         V_ASSERT(g_live_blocks == live0, "C19: nothing retained for an ignored request");
     } else {
         V_ASSERT(g_nsend == 1 && q_seen, "C08: exactly one QueryLargeTlvResp per request");
         V_ASSERT(ST->mapper_seq == seq, "C08: request's sequence number remembered");
+        if (!in.st.known) V_ASSERT(ST->mapper_known == 1 && mac6_eq(ST->mapper_real.a, in.frame + F_RSRC) && mac6_eq(ST->mapper_apparent.a, in.frame + F_ESRC),
+                                   "C05: a QueryLargeTlv that opens the session makes its real source the mapper and its Ethernet source the apparent mapper");
+        else V_ASSERT(ST->mapper_known == 1 && mac6_eq(ST->mapper_real.a, in.st.mreal) && mac6_eq(ST->mapper_apparent.a, in.st.mapp), "C05: a QueryLargeTlv from the active mapper leaves the mapper unchanged");
         bool newly_cached = (q_type == 0x0E) && !had_cache && !g_plat.icon_fail;
         V_ASSERT(g_live_blocks == live0 + (newly_cached ? 1 : 0), "C19: fetched name / hardware id released, only the icon is kept (cached) after a QueryLargeTlv");
         if (q_type == 0x0E && (had_cache || newly_cached)) V_ASSERT(ST->small_icon != 0, "C08: icon cached for the session");
